@@ -801,13 +801,16 @@ fn resolve_names_item_decl(ctx: &mut StaticsContext, symbol_table: &SymbolTable,
                             }
                         }
 
-                        for (_, method_index) in method_set {
-                            ctx.errors.push(Error::InterfaceImplMissingMethod {
-                                iface: iface_def.clone(),
-                                ty: iface_impl.typ.to_solved_type(ctx).unwrap(),
-                                iface_impl_node: iface_impl.typ.node(),
-                                missing_method_index: method_index,
-                            });
+                        // (a type that can't be solved, `array<Bogus>`, is reported on its own)
+                        if let Some(ty) = iface_impl.typ.to_solved_type(ctx) {
+                            for (_, method_index) in method_set {
+                                ctx.errors.push(Error::InterfaceImplMissingMethod {
+                                    iface: iface_def.clone(),
+                                    ty: ty.clone(),
+                                    iface_impl_node: iface_impl.typ.node(),
+                                    missing_method_index: method_index,
+                                });
+                            }
                         }
                     }
                     _ => ctx.errors.push(Error::MustExtendType {
